@@ -39,7 +39,7 @@ def plan(tier, seed):
 
 
 def gen_vector(rng):
-    cls = rng.choice(["normal", "ties", "constant", "negative", "zeros", "single", "perfect", "positive", "empty"])
+    cls = rng.choice(["normal", "ties", "constant", "negative", "zeros", "single", "perfect", "positive", "empty", "offset"])
     n = rng.choice([2, 3, 5, 8, 13, 30, 60])
     if cls == "single":
         n = 1
@@ -59,6 +59,13 @@ def gen_vector(rng):
              for _ in range(n)]
         if which == "both":
             f = [f[0]] * n
+    elif cls == "offset":
+        # a forecast that is the observation plus a (nearly) constant offset that is not exact in binary: the spread of the
+        # errors is tiny compared with their mean (numerically delicate for variance-type scores)
+        c = rng.choice([0.1, 2.3, 100.1, -1000.3])
+        scatter = 1e-3 if (abs(c) < 200 and rng.random() < 0.5) else 0.0
+        o = [round(rng.gauss(5, 4), 1) for _ in range(n)]
+        f = [x + c + scatter * rng.randint(-3, 3) for x in o]
     elif cls == "negative":
         o = [-abs(round(rng.gauss(5, 3), 2)) - 0.5 for _ in range(n)]
         f = [-abs(round(rng.gauss(5, 3), 2)) - 0.5 for _ in range(n)]
@@ -153,6 +160,8 @@ def run_vectors(desc, ctx):
             aggs = [None]
             if m.supports_aggregator:
                 aggs = [None] + rng.sample(AGGS, 4)
+            if cls == "offset":
+                aggs = [None]     # (a spread-type aggregator over squared errors of size 1e6 is pure rounding noise on both sides)
             for agg in aggs:
                 if agg is not None:
                     m.aggregator = verif.aggregator.get(agg)
